@@ -99,8 +99,12 @@ CHECKS = {
              "templates binds to each parameter the argument with every call in it replaced by that call's result, computed "
              "where the argument stands, and instantiates the outer body with these values (compared with Wtp.expand on 400 "
              "generated nested calls per quick run). "
-             "PARTIAL: beyond these fragments (calls in template bodies, deeper nesting, a template inside its own arguments, "
-             "links) equality with the independent MediaWiki reference semantics is decided per run by harness/gen_wt.py:Ref, "
+             "c04_calls_in_a_template_body_are_expanded_after_substitution: a template whose body holds calls to other templates "
+             "with plain names and arguments gives the body with its parameters substituted and every call replaced by its "
+             "result (one trailing line break of each such argument dropped: the known finding), also compared with Wtp.expand "
+             "on 400 generated cases per quick run. "
+             "PARTIAL: beyond these fragments (parameters inside the arguments of calls in bodies, deeper nesting, a template "
+             "inside its own arguments, links) equality with the independent MediaWiki reference semantics is decided per run by harness/gen_wt.py:Ref, "
              "not by a refinement theorem.",
         note=TRUST + "regex-based _encode/preprocess_text/_template_to_body are glue under the diff; ASCII whitespace; "
              "parser function name table regenerated from the live module.",
